@@ -5,10 +5,13 @@ Export ListNotations.
 Inductive eff :=
 | Nop | Log | StartupDone | InitChild | SetResOk | SetResErr | Cleanup
 | SendInfo | SendResOk | SendResErr | StartCtrl | ReleaseCtrl | JoinCtrl | CloseComms
-| PutEnd | CloseResults | CloseArgs | SetCleaned | Return.
+| PutEnd | CloseResults | CloseArgs | SetCleaned | Return
+(* remote backend (RemoteWorker._run_backend): the local variable `result`, the data socket to the parent *)
+| VarNone | VarOk | VarErr | VarErrNone | RecvSync | SockSendVar | SockSendState | SockShut | SockClose | PutEndSock.
 
-Inductive cnd := CSetNames | CCtrlAliveNotTerm | CCleaned | CHasClose.
-Inductive xcls := XException | XBaseException.
+Inductive cnd := CSetNames | CCtrlAliveNotTerm | CCleaned | CHasClose
+  | CFalse | CTrue | CCtrlAlive | CVarNone.
+Inductive xcls := XException | XBaseException | XConnClosed.
 
 Inductive stm :=
 | Eff (e : eff)
